@@ -129,11 +129,27 @@ fn gen_pair(rng: &mut Rng, nfiles: usize, big: bool) -> String {
             _ => {
                 a.push(format!("{}:{}", p, c));
                 // changed content: other bytes of the same length, a prefix, an extension, or unrelated
-                let c2 = loop {
-                    let c2 = content(rng, false);
-                    if c2 != c {
-                        break c2;
+                let related = if c.starts_with('~') && rng.chance(1, 3) {
+                    // the new content is a proper prefix of the old one (a truncated file) or the old
+                    // one plus a tail (`~n.s` is the first n bytes of the stream `s`)
+                    let (n, sd) = c[1..].split_once('.').unwrap();
+                    let n: usize = n.parse().unwrap();
+                    if n >= 2 && rng.chance(2, 3) {
+                        Some(format!("~{}.{}", match rng.below(3) { 0 => 1, 1 => n - 1, _ => rng.range(1, n as u64 - 1) as usize }, sd))
+                    } else {
+                        Some(format!("~{}.{}", n + match rng.below(3) { 0 => 1, 1 => 128, _ => rng.range(1, 5000) as usize }, sd))
                     }
+                } else {
+                    None
+                };
+                let c2 = match related {
+                    Some(c2) => c2,
+                    None => loop {
+                        let c2 = content(rng, false);
+                        if c2 != c {
+                            break c2;
+                        }
+                    },
                 };
                 b.push(format!("{}:{}", p, c2));
             }
